@@ -245,7 +245,7 @@ def run(ctx):
     cov = dict(proof)
     cov.update({"trusted_base": common.TRUSTED_BASE + [
                     "what the algorithms compute is not modelled: the model is run with the placements the implementation exposed (theorems hold for every oracle)",
-                    "setNets' assert()s are modelled as 'Aborted' (assertion-enabled build); the tie issues setNets with arguments that satisfy them"],
+                    "addNet/setNets argument tests (sizes, limits start at 0 and sorted, pins on existing cells) are modelled and exercised with acceptable and unacceptable arguments"],
                 "evaluations": len(lines), "distinct_nontrivial": len(nontriv),
                 "rule": "seeded random circuits (1-6 rows, 1-8 cells, nets, fixed cells, polarities, utilisation 20-115% so that legalization also fails), stage uniform in "
                         "{global, legalize, detailed}, 10% without callback, 20% with one of 6 invalid parameter sets, efforts 1-9 (steps capped so that a run has <= ~12 callbacks); "
